@@ -93,7 +93,7 @@ def r_seed_first(c):
     # what is seeded: inputs of all kinds and the output keys
     g = m.func(LC + ".generate_loopy")
     seeds = find(g, """$state.var_name_gen.add_names({$i.name for $n in $order
-        for $i in $ing($outs[$n].expr)
+        for $i in $$ing($outs[$n].expr)
         if isinstance($i, Placeholder | SizeParam | DataWrapper) if $i.name is not None})""")
     c.check(len(seeds) == 1, "R15-SEED-FIRST", "target.loopy.codegen.generate_loopy",
             "seeds-input-names", m.loc(LC, g),
